@@ -250,6 +250,32 @@ def tamper(case: DCase, rng, others=()):
                 mk(v2, "nonempty-encrypted-key-direct")
             else:
                 mk(w(encrypted_key="AQEBAQEBAQE"), "nonempty-encrypted-key-direct")
+        # key-management parameters carried OUTSIDE the protected header (per-recipient / unprotected): they are not
+        # covered by the content AAD, but every one of them steers the CEK recovery, so no edit may yield a plaintext
+        def wr(hdr=None, ek=None):
+            v2 = copy.deepcopy(v)
+            t2 = v2["recipients"][0] if items else v2
+            if hdr is not None:
+                t2["header"] = hdr
+            if ek is not None:
+                t2["encrypted_key"] = ek
+            return v2
+        rh = tgt.get("header")
+        if isinstance(rh, dict):
+            for name in ("iv", "tag", "p2s"):
+                if isinstance(rh.get(name), str) and rh[name]:
+                    mk(wr(hdr=dict(rh, **{name: flip(rh[name].encode(), rng).decode()})), f"flip-recipient-{name}")
+                    raw = b64u_dec(rh[name])
+                    mk(wr(hdr=dict(rh, **{name: b64u(raw[:-1]).decode()})), f"truncate-recipient-{name}")
+                    mk(wr(hdr=dict(rh, **{name: b64u(raw + b"\x00").decode()})), f"extend-recipient-{name}")
+            if isinstance(rh.get("p2c"), int):
+                mk(wr(hdr=dict(rh, p2c=rh["p2c"] + 1)), "bump-recipient-p2c")
+            if isinstance(rh.get("tag"), str) and tgt.get("encrypted_key"):
+                ekr, tgr = b64u_dec(tgt["encrypted_key"]), b64u_dec(rh["tag"])
+                for k_ in sorted({1, 4, len(ekr)}):
+                    # octets moved across the boundary between the JWE Encrypted Key and the key-wrap tag
+                    mk(wr(hdr=dict(rh, tag=b64u(ekr[-k_:] + tgr).decode()), ek=b64u(ekr[:-k_]).decode()), f"shift-encrypted-key-into-kw-tag-{k_}")
+                    mk(wr(hdr=dict(rh, tag=b64u(tgr[k_:]).decode()), ek=b64u(ekr + tgr[:k_]).decode()), f"shift-kw-tag-into-encrypted-key-{k_}")
     # key substitution
     kn = m["key"]
     kty = K._SPECS[kn]
